@@ -340,3 +340,143 @@ _base2 = scenarios
 
 def scenarios():
     return _base2() + [certify('self-uid'), certify('other-uid'), certify('key')]
+
+
+def revoke(kind):
+    label = 'C02/PGPKey.revoke[%s]' % kind
+
+    def gen(repo):
+        ST = repo.enum_members('pgpy.constants.SignatureType')
+        r = scn.Run(repo, KEY, 'revoke', label)
+        ex, st = r.ex, r.st
+        me = E.VObj(KEY, 'component')
+        KEYID = z3.Const('MY_KEYID', B)
+        r.hook(KEY, 'fingerprint', scn.const(E.VStr(z=z3.Const('FPR', B), cls='pgpy.types.Fingerprint')))
+        r.hook('pgpy.types.Fingerprint', 'keyid', scn.const(E.VStr(z=KEYID)))
+        ALG = z3.Int('key_algorithm')
+        r.hook(KEY, 'key_algorithm', scn.const(E.VInt(ALG, enum='pgpy.constants.PubKeyAlgorithm')))
+        newsig = E.VObj(SIG, 'newsig')
+        r.set('newsig', '_signature', E.VObj('pgpy.packet.packets.SignatureV4', 'spkt'))
+        r.set('spkt', 'subpackets', E.VObj('pgpy.packet.fields.SubPackets', 'subp'))
+
+        def new_hook(ex, st, o, a):
+            st.ghost['new_args'] = a
+            return [(st, newsig)]
+        r.hook(SIG, 'new', scn.method_hook(new_hook))
+
+        def addnew_kw(ex, st, o, a, kws):
+            st.ghost['adds'] = st.ghost.get('adds', ()) + ((a, kws),)
+            return [(st, E.VNone())]
+        addnew_kw.wants_kws = True
+        r.hook('pgpy.packet.fields.SubPackets', 'addnew', scn.method_hook(addnew_kw))
+
+        def _sign(ex, st, o, a, kws):
+            st.ghost['_sign'] = (o, a, kws)
+            return [(st, a[1])]
+        _sign.wants_kws = True
+        r.hook(KEY, '_sign', scn.method_hook(_sign))
+        target = {'uid': E.VObj('pgpy.pgp.PGPUID', 'uid'), 'key': E.VObj(KEY, 'tkey'), 'subkey': E.VObj(KEY, 'tkey')}[kind]
+        r.hook(KEY, 'is_primary', lambda ex, st, o, a: [(st, E.VBool(kind == 'key'))])
+        REASON, COMMENT = E.VExt('reason', ()), E.VStr(z=z3.Const('COMMENT', B))
+        want = {'uid': 'CertRevocation', 'key': 'KeyRevocation', 'subkey': 'SubkeyRevocation'}[kind]
+        for pi, (s, v) in enumerate(r.call(me, [target], {'reason': REASON, 'comment': COMMENT})):
+            if isinstance(v, E.Raise):
+                r.oblige(s, 'safety(%s)/p%d' % (v.exc, pi), z3.BoolVal(False), v.where)
+                continue
+            na, sg, adds = s.ghost.get('new_args'), s.ghost.get('_sign'), s.ghost.get('adds', ())
+            r.oblige(s, 'creates-and-signs-one-signature/p%d' % pi, z3.BoolVal(na is not None and sg is not None and v is newsig))
+            if na is None or sg is None:
+                continue
+            r.oblige(s, 'signature-type-%s/p%d' % (want, pi), ex.as_int(na[0]) == ST[want])
+            r.oblige(s, 'issuer-and-algorithm-of-the-revoking-component/p%d' % pi, z3.And(ex.as_int(na[1]) == ALG, na[3].z == KEYID if isinstance(na[3], E.VStr) and na[3].z is not None else z3.BoolVal(False)))
+            ok = len(adds) == 1 and adds[0][0][0].s == 'ReasonForRevocation' and z3.is_true(adds[0][1]['hashed'].z) and adds[0][1].get('code') is REASON and adds[0][1].get('string') is COMMENT
+            r.oblige(s, 'reason-for-revocation(hashed,code,comment)/p%d' % pi, z3.BoolVal(bool(ok)))
+            r.oblige(s, 'signed-over-the-revoked-component/p%d' % pi, z3.BoolVal(sg[0] is me and sg[1][0] is target and sg[1][1] is newsig))
+        return r.result()
+    return Scenario(label, KEY + '.revoke', gen, props=('C02', 'C15'))
+
+
+def bind(kind):
+    """kind: 'subkey-binding[signing subkey]' (cross-signature embedded), 'subkey-binding[encryption subkey]', 'primary-key-binding'"""
+    label = 'C02/PGPKey.bind[%s]' % kind
+
+    def gen(repo):
+        ST = repo.enum_members('pgpy.constants.SignatureType')
+        KF = repo.enum_members('pgpy.constants.KeyFlags')
+        r = scn.Run(repo, KEY, 'bind', label)
+        ex, st = r.ex, r.st
+        me, other = E.VObj(KEY, 'me'), E.VObj(KEY, 'other')
+        KEYID = z3.Const('MY_KEYID', B)
+        r.hook(KEY, 'fingerprint', scn.const(E.VStr(z=z3.Const('FPR', B), cls='pgpy.types.Fingerprint')))
+        r.hook('pgpy.types.Fingerprint', 'keyid', scn.const(E.VStr(z=KEYID)))
+        r.hook(KEY, 'key_algorithm', lambda ex, st, o, a: [(st, E.VExt('alg-of-' + o.ref, ()))])
+        i_am_primary = kind != 'primary-key-binding'
+        r.hook(KEY, 'is_primary', lambda ex, st, o, a: [(st, E.VBool(i_am_primary if o.ref == 'me' else not i_am_primary))])
+        r.hook(KEY, 'is_public', scn.const(E.VBool(False)))
+        can_sign = kind == 'subkey-binding[signing subkey]'
+        ex.hooks[('ext:alg-of-other', 'can_sign')] = lambda ex, st, o, a: [(st, E.VBool(can_sign))]
+        ex.hooks[('ext:alg-of-other', 'can_sign')].is_method = False
+        newsig = E.VObj(SIG, 'newsig')
+        r.set('newsig', '_signature', E.VObj('pgpy.packet.packets.SignatureV4', 'spkt'))
+        r.set('spkt', 'subpackets', E.VObj('pgpy.packet.fields.SubPackets', 'subp'))
+
+        def new_hook(ex, st, o, a):
+            st.ghost['new_args'] = a
+            return [(st, newsig)]
+        r.hook(SIG, 'new', scn.method_hook(new_hook))
+
+        def addnew_kw(ex, st, o, a, kws):
+            st.ghost['adds'] = st.ghost.get('adds', ()) + ((a, kws),)
+            return [(st, E.VNone())]
+        addnew_kw.wants_kws = True
+        r.hook('pgpy.packet.fields.SubPackets', 'addnew', scn.method_hook(addnew_kw))
+        cross = E.VObj(SIG, 'cross')
+        CROSSPKT = E.VObj('pgpy.packet.packets.SignatureV4', 'crosspkt')
+        r.set('cross', '_signature', CROSSPKT)
+
+        def other_bind(ex, st, o, a):
+            st.ghost['cross_by'] = (o, a)
+            return [(st, cross)]
+        r.hook(KEY, 'bind', scn.method_hook(other_bind))
+
+        def _sign(ex, st, o, a, kws):
+            st.ghost['_sign'] = (o, a, kws)
+            return [(st, a[1])]
+        _sign.wants_kws = True
+        r.hook(KEY, '_sign', scn.method_hook(_sign))
+        usage = E.VSet([E.VInt(KF['Sign'] if can_sign else KF['EncryptCommunications'], enum='pgpy.constants.KeyFlags')])
+        kws = {'usage': usage} if i_am_primary else {}
+        for pi, (s, v) in enumerate(r.call(me, [other], kws)):
+            if isinstance(v, E.Raise):
+                r.oblige(s, 'safety(%s)/p%d' % (v.exc, pi), z3.BoolVal(False), v.where)
+                continue
+            na, sg, adds = s.ghost.get('new_args'), s.ghost.get('_sign'), s.ghost.get('adds', ())
+            r.oblige(s, 'creates-and-signs-one-signature/p%d' % pi, z3.BoolVal(na is not None and sg is not None and v is newsig))
+            if na is None or sg is None:
+                continue
+            want = 'Subkey_Binding' if i_am_primary else 'PrimaryKey_Binding'
+            r.oblige(s, 'signature-type-%s/p%d' % (want, pi), ex.as_int(na[0]) == ST[want])
+            r.oblige(s, 'issuer-is-the-binding-key/p%d' % pi, na[3].z == KEYID if isinstance(na[3], E.VStr) and na[3].z is not None else z3.BoolVal(False))
+            names = [a[0].s for a, k in adds]
+            if i_am_primary:
+                kf = [k for a, k in adds if a[0].s == 'KeyFlags']
+                r.oblige(s, 'usage->KeyFlags(hashed)/p%d' % pi, z3.BoolVal(len(kf) == 1 and z3.is_true(kf[0]['hashed'].z) and kf[0].get('flags') is usage))
+                emb = [k for a, k in adds if a[0].s == 'EmbeddedSignature']
+                if can_sign:
+                    cb = s.ghost.get('cross_by')
+                    r.oblige(s, 'signing-subkey:cross-signature-made-by-the-subkey-over-the-primary/p%d' % pi, z3.BoolVal(cb is not None and cb[0] is other and cb[1][0] is me))
+                    r.oblige(s, 'cross-signature-embedded(unhashed)/p%d' % pi, z3.BoolVal(len(emb) == 1 and z3.is_false(z3.simplify(emb[0]['hashed'].z)) and emb[0].get('_sig') is CROSSPKT))
+                else:
+                    r.oblige(s, 'no-cross-signature-for-a-subkey-that-cannot-sign/p%d' % pi, z3.BoolVal(len(emb) == 0 and s.ghost.get('cross_by') is None))
+            else:
+                r.oblige(s, 'primary-key-binding-carries-no-options/p%d' % pi, z3.BoolVal(names == []))
+            r.oblige(s, 'signed-over-the-bound-key/p%d' % pi, z3.BoolVal(sg[0] is me and sg[1][0] is other and sg[1][1] is newsig))
+        return r.result()
+    return Scenario(label, KEY + '.bind', gen, props=('C02', 'C15'))
+
+
+_base3 = scenarios
+
+
+def scenarios():
+    return _base3() + [revoke(k) for k in ('uid', 'key', 'subkey')] + [bind(k) for k in ('subkey-binding[signing subkey]', 'subkey-binding[encryption subkey]', 'primary-key-binding')]
